@@ -11,7 +11,9 @@ def build_tool(repo, verif, name, release=False):
     os.makedirs(os.path.join(crate, 'src'), exist_ok=True)
     cargo = open(os.path.join(tool, 'Cargo.toml')).read().replace('/repo/', repo.rstrip('/') + '/')
     open(os.path.join(crate, 'Cargo.toml'), 'w').write(cargo)
-    open(os.path.join(crate, 'src', 'main.rs'), 'w').write(open(os.path.join(tool, 'src', 'main.rs')).read())
+    for fn in os.listdir(os.path.join(tool, 'src')):
+        if fn.endswith('.rs'):
+            open(os.path.join(crate, 'src', fn), 'w').write(open(os.path.join(tool, 'src', fn)).read())
     open(os.path.join(crate, 'Cargo.lock'), 'w').write(open(os.path.join(repo, 'Cargo.lock')).read())
     env = dict(os.environ)
     env['CARGO_TARGET_DIR'] = os.path.join(verif, '.cache', 'target')
@@ -530,7 +532,7 @@ def check_immediate_forms(prop, tier, repo, verif):
     P = 2 ** 64 - 2 ** 32 + 1
     res = {'unit': 'bounded:immediate_forms', 'engine': 'bounded run of the real parser + assembler + processor (tools/runmasm), one process per source', 'status': 'ok',
            'failures': [], 'undecided': [], 'bounded': True,
-           'bound': 'about 60 sources: push in decimal / short big-endian hex / long little-endian hex word at 0, 1, 2^32-1, 2^32, p-1 (accepted) and p, 2^64-1, odd digit counts, 17 values (rejected); value lists in documented order; constants incl. + - * / // ( ) expressions; decimal immediates of add / sub / mul / div / eq / exp at p-1, p and 0; expected values computed from docs/src/user_docs/assembly/io_operations.md and code_organization.md'}
+           'bound': 'about 170 sources: the last valid and first invalid parameter of dup / swap / movup / movdn / dupw / swapw / movupw / movdnw / u32 shifts and rotations / exp.uN / adv_push / memory addresses / u32 division immediates / repeat / local indices, caller outside a kernel, undefined procedure, export in an executable; push in decimal / short big-endian hex / long little-endian hex word at 0, 1, 2^32-1, 2^32, p-1 (accepted) and p, 2^64-1, odd digit counts, 17 values (rejected); value lists in documented order; constants incl. + - * / // ( ) expressions; decimal immediates of add / sub / mul / div / eq / exp at p-1, p and 0; expected values computed from docs/src/user_docs/assembly/io_operations.md and code_organization.md'}
     binp, err = build_tool(repo, verif, 'runmasm')
     if binp is None:
         res['status'] = 'undecided'
@@ -558,13 +560,33 @@ def check_immediate_forms(prop, tier, repo, verif):
         ('const.A=7', 'push.A', [7]), ('const.A=0x10', 'push.A', [16]), ('const.A=%d' % (P - 1), 'push.A', [P - 1]), ('const.A=%d' % P, 'push.A', None),
         ('const.A=7 const.B=A*3+1', 'push.B', [22]), ('const.A=7 const.B=A//2', 'push.B', [3]), ('const.A=7 const.B=A/2', 'push.B', [7 * inv2 % P]),
         ('const.A=8 const.B=A/2', 'push.B', [4]), ('const.A=7 const.B=(A+1)*(A-2)', 'push.B', [40]), ('const.A=2 const.B=10-A*3', 'push.B', [4]),
-        ('const.A=2 const.B=A+A*A', 'push.B', [6]), ('const.A=9 const.B=A//2//2', 'push.B', [2]), ('const.A=5', 'push.A.A', [5, 5]),
+        ('const.A=2 const.B=A+A*A', 'push.B', [6]), ('const.A=2**32', 'push.A', None), ('const.A=1+', 'push.A', None), ('const.A=(1+2', 'push.A', None),
+        ('const.A=1+2)', 'push.A', None), ('const.A=*3', 'push.A', None), ('const.A=()', 'push.A', None), ('const.A=((2))', 'push.A', [2]), ('const.A=4/0', 'push.A', None), ('const.A=4//0', 'push.A', None), ('const.A=9 const.B=A//2//2', 'push.B', [2]), ('const.A=5', 'push.A.A', [5, 5]),
     ]
     srcs = [('begin %s end' % c, c, exp) for c, exp in cases] + [('%s begin %s end' % (h, b), h + ' ' + b, exp) for h, b, exp in consts]
     # decimal immediates of the arithmetic / comparison instructions at the field boundaries
     srcs += [('begin push.5 add.%d end' % (P - 1), 'add.p-1', [4]), ('begin push.5 add.%d end' % P, 'add.p', None), ('begin push.5 mul.%d end' % (P - 1), 'mul.p-1', [P - 5]),
              ('begin push.5 sub.%d end' % (P - 1), 'sub.p-1', [6]), ('begin push.%d eq.%d end' % (P - 1, P - 1), 'eq.p-1', [1]), ('begin push.6 div.2 end', 'div.2', [3]),
              ('begin push.5 div.0 end', 'div.0', None), ('begin push.3 exp.%d end' % (2 ** 64 - 2 ** 32), 'exp.p-1', [1])]
+    # parameter ranges of the instruction reference: the last valid and the first invalid value on each side
+    # (exp = 'ASM' means: must assemble - what it does at run time is decided elsewhere)
+    for ins, ok, bad in [('dup', [0, 15], [16]), ('swap', [1, 15], [0, 16]), ('movup', [2, 15], [0, 1, 16]), ('movdn', [2, 15], [0, 1, 16]),
+                         ('dupw', [0, 3], [4]), ('swapw', [1, 3], [0, 4]), ('movupw', [2, 3], [0, 1, 4]), ('movdnw', [2, 3], [0, 1, 4]),
+                         ('u32shl', [0, 31], [32]), ('u32shr', [0, 31], [32]), ('u32rotl', [0, 31], [32]), ('u32rotr', [0, 31], [32]),
+                         ('exp.u', [0, 64], [65]), ('adv_push', [1, 16], [0, 17]), ('mem_load', [0, 2 ** 32 - 1], [2 ** 32]), ('mem_storew', [0, 2 ** 32 - 1], [2 ** 32]),
+                         ('u32div', [1, 2 ** 32 - 1], [0, 2 ** 32]), ('u32mod', [1], [0]), ('u32divmod', [1], [0]), ('u32wrapping_add', [0, 2 ** 32 - 1], [2 ** 32]),
+                         ('repeat', [1, 2 ** 32 - 1], [2 ** 32])]:   # repeat.0: docs say count > 0, the parser accepts it as zero copies (C06 treats it so) - not checked
+        sep = '' if ins.endswith('.u') else '.'
+        for v, want in [(v, 'ASM') for v in ok] + [(v, None) for v in bad]:
+            form = '%s%s%d' % (ins, sep, v)
+            body = 'repeat.%d add end' % v if ins == 'repeat' else form
+            if ins == 'repeat' and v > 1000:
+                continue        # assembling 2^32 copies is not a test of the parser
+            srcs.append(('begin %s end' % body, form, want))
+    srcs += [('proc.foo loc_load.0 end begin exec.foo end', 'loc_load.0 with 0 locals', None), ('proc.foo.1 loc_load.0 end begin exec.foo end', 'loc_load.0 with 1 local', 'ASM'),
+             ('proc.foo.1 loc_load.1 end begin exec.foo end', 'loc_load.1 with 1 local', None), ('proc.foo.3 loc_storew.2 end begin exec.foo end', 'loc_storew.2 with 3 locals', 'ASM'),
+             ('proc.foo.3 locaddr.3 end begin exec.foo end', 'locaddr.3 with 3 locals', None), ('begin caller end', 'caller outside a kernel', None),
+             ('begin exec.nothing end', 'undefined procedure', None), ('export.foo add end begin exec.foo end', 'export in an executable', None)]
     n = 0
     for src, label, exp in srcs:
         n += 1
@@ -576,6 +598,9 @@ def check_immediate_forms(prop, tier, repo, verif):
         elif exp is None:
             if not out.startswith('ASMERR'):
                 bad = 'accepted-invalid'
+        elif exp == 'ASM':
+            if out.startswith('ASMERR'):
+                bad = 'rejected-valid'
         else:
             m = re.match(r'OK \[(.*)\]', out)
             if not m:
@@ -594,4 +619,49 @@ def check_immediate_forms(prop, tier, repo, verif):
         res['status'] = 'fail'
     res['wall_s'] = round(time.time() - t0, 1)
     res['checker_cmd'] = 'tools/runmasm (built against the current tree): %d sources' % n
+    return res
+
+
+def check_air_full(prop, tier, repo, verif):
+    t0 = time.time()
+    res = {'unit': 'bounded:air_full_coverage', 'engine': 'bounded fault enumeration through the real ProcessorAir::evaluate_transition (tools/airfull, release build)', 'status': 'ok',
+           'failures': [], 'undecided': [], 'bounded': True,
+           'bound': '3 generated programs (every modelled operation at stack depth 16, 17 and 21; u32 / bitwise, hperm / hmerge / mtree_*, memory in several contexts, call / exec with locals; ~49000 row pairs): every cell of the next row (system, decoder, stack, range checker, chiplets) and the single-row helper / chiplet cells of the current row perturbed by +1 and by a random value; a cell the documentation (docs/src/design/stack, chiplets, range.md) says is pinned by a main-trace transition constraint must make some constraint non-zero. Whitelisted from the documentation: cells tied through bus / LogUp columns or boundary constraints. Outside the operation groups C04 names and therefore not counted: MSTREAM s8..s15 (IO operation), kernel-ROM selector s3 on padding rows'}
+    binp, err = build_tool(repo, verif, 'airfull', release=True)
+    if binp is None:
+        res['status'] = 'undecided'
+        res['undecided'].append('airfull does not build against the current tree: ' + err)
+        return res
+    p = subprocess.run([binp], stdout=subprocess.PIPE, stderr=subprocess.PIPE, text=True)
+    m = re.search(r'SUMMARY honest_violations=(\d+) uncaught_cells=(\d+) gap_cells=(\d+)', p.stdout)
+    if not m:
+        res['status'] = 'undecided'
+        res['undecided'].append('airfull gave no summary (panic?): ' + (p.stdout + p.stderr)[-500:])
+        return res
+    seen = {}
+    excluded = 0
+    for ln in p.stdout.split('\n'):
+        if ln.startswith('HONEST-VIOLATION'):
+            seen.setdefault(('honest-row-rejected', 'any'), []).append(ln)
+            continue
+        mm = re.match(r'(UNCAUGHT|GAP) (.*?) \| (.*?) \| (\d+) \| (.*?) \| (.*)', ln)
+        if not mm:
+            continue
+        kindtag, kind, cell, cnt, first, reason = mm.groups()
+        if kindtag == 'GAP' and (reason.startswith('MSTREAM') or 'selector s3' in reason or kind.startswith('chiplets-padding')):
+            excluded += 1
+            continue
+        rowkind = re.sub(r' @ depth.*', '', kind)
+        seen.setdefault((rowkind, cell), []).append('%s x%s first at %s' % (kind, cnt, first))
+    for (rowkind, cell), lst in seen.items():
+        slug = re.sub(r'[^A-Za-z0-9]+', '-', rowkind).strip('-')[:50] + ':' + re.sub(r'[^A-Za-z0-9=]+', '-', cell).strip('-')[:40]
+        res['failures'].append({'obligation': '%s/bounded/air_full_coverage#%s' % (prop, slug),
+                                'message': 'a wrong value in cell [%s] on rows of kind [%s] satisfies every main transition constraint' % (cell, rowkind) if rowkind != 'honest-row-rejected' else 'an honest row pair violates a transition constraint',
+                                'rendered': '\n'.join(lst[:4])[:1500], 'origins': ['air/src/constraints'],
+                                'failing_input': {'row_kind': rowkind, 'cell': cell, 'where': lst[0][:300], 'perturbation': '+1 / random value on an honest row pair', 'cmd': '.cache/target/release/airfull'}})
+    res['excluded_out_of_scope_cells'] = excluded
+    if res['failures']:
+        res['status'] = 'fail'
+    res['wall_s'] = round(time.time() - t0, 1)
+    res['checker_cmd'] = 'tools/airfull (built against the current tree)'
     return res
